@@ -22,6 +22,42 @@ import cassandra.protocol as cproto
 
 ADDR = "10.0.0.1"
 
+
+class Runaway(BaseException):
+    """The code under test does not come back (loops, or hands over far more messages than were sent).
+    A BaseException so that the driver's `except Exception` handlers do not swallow it."""
+
+
+WATCHDOG_S = 30
+
+
+def _on_alarm(signum, frame):
+    raise Runaway("read handler still running after %d s" % WATCHDOG_S)
+
+
+def guarded_feed(conn, chunk):
+    """conn._iobuf.write(chunk); conn.process_io_buffer() - what every reactor's read handler does - under a
+    watchdog. Returns None, or a description of how the code under test failed to return normally."""
+    import signal
+    old = signal.signal(signal.SIGALRM, _on_alarm)
+    signal.setitimer(signal.ITIMER_REAL, WATCHDOG_S)
+    try:
+        conn._iobuf.write(chunk)
+        conn.process_io_buffer()
+        return None
+    except Runaway as exc:
+        err = "runaway: %s" % exc
+    except Exception as exc:          # a reactor would defunct the connection here
+        err = repr(exc)
+    finally:
+        signal.setitimer(signal.ITIMER_REAL, 0)
+        signal.signal(signal.SIGALRM, old)
+    try:
+        conn.defunct(ConnectionError(err))
+    except BaseException:
+        conn.is_defunct = True
+    return err
+
 # ------------------------------------------------------------------ real bodies of an exact length
 ROWS_OVERHEAD = len(wire.body_rows([("b", wire.T_BLOB)], [[b""]], ks="ks", table="t"))
 
@@ -100,6 +136,8 @@ class Recorder:
 
         def observed_process_msg(header, body):
             self.msgs.append((header.version, header.stream, header.opcode, bytes(body)))
+            if len(self.msgs) > 2 * len(self.frames) + 8:
+                raise Runaway("%d messages handed to process_msg for %d frames sent" % (len(self.msgs), len(self.frames)))
             return real_pm(header, body)
         conn.process_msg = observed_process_msg
         for et in ("STATUS_CHANGE", "TOPOLOGY_CHANGE", "SCHEMA_CHANGE"):
@@ -208,15 +246,7 @@ class FramingHarness:
         c = self.conn
         if c.is_closed or c.is_defunct:
             return
-        try:
-            c._iobuf.write(chunk)
-            c.process_io_buffer()
-        except Exception as exc:          # a reactor would defunct the connection here
-            self.error = repr(exc)
-            try:
-                c.defunct(exc)
-            except Exception:
-                pass
+        self.error = guarded_feed(c, chunk) or self.error
 
     def project(self):
         c, r = self.conn, self.rec
